@@ -211,7 +211,7 @@ def run(
     meta = os.path.join(d, "meta")
     shutil.rmtree(meta, ignore_errors=True)
     # (TLC leaves an empty tlc-* directory in java.io.tmpdir per run: keep them in our scratch)
-    cmd = ["java", "-XX:+UseParallelGC", "-Xmx" + heap, "-DTLA-Library=" + SPECS, "-Djava.io.tmpdir=" + d]
+    cmd = ["java", "-XX:+UseParallelGC", "-Xss64m", "-Xmx" + heap, "-DTLA-Library=" + SPECS, "-Djava.io.tmpdir=" + d]
     spec_path = os.path.join(SPECS, spec + ".tla")
     if module_text is not None:
         # a generated root module (constants as definitions) that EXTENDS modules in specs/
